@@ -90,15 +90,22 @@ def enc_arg(n, ids):
     return f"?{type(n).__name__}"
 
 
+def _procargs_case(src):
+    out = []
+    for args, res in capture_proc_args(src):
+        req, ids = procargs_request(args)
+        if req is None:
+            continue
+        out.append((req, " ".join(enc_arg(r, ids) for r in res), src))
+    return out
+
+
 def procargs_cases(srcs):
     """(request line, expected answer, source) for every proc_args call made while parsing the sources."""
     out = []
-    for src in srcs:
-        for args, res in capture_proc_args(src):
-            req, ids = procargs_request(args)
-            if req is None:
-                continue
-            out.append((req, " ".join(enc_arg(r, ids) for r in res), src))
+    for r in _pooled("_procargs_case", [(s,) for s in srcs]):
+        if isinstance(r, list):
+            out.extend(tuple(x) for x in r)
     return out
 
 
@@ -200,23 +207,23 @@ def impl_parse_observation(src: str, mode="exec"):
     return obs
 
 
+def _peg_case(src, mode="exec"):
+    if "!" in src.replace("!=", ""):
+        return None
+    try:
+        toks = kept_tokens(src)
+    except BaseException:  # noqa: BLE001
+        return None
+    obs = impl_parse_observation(src, mode)
+    if obs["k"] in ("recursion", "tokerr"):
+        return None
+    return (parse_request(load_ir(), toks, "file" if mode == "exec" else "eval"), obs, src)
+
+
 def peg_cases(srcs, mode="exec"):
     """(request, expected, source) for the first pass of every source (sources with macro triggers are skipped)."""
-    ir = load_ir()
-    out = []
-    for src in srcs:
-        if "!" in src.replace("!=", ""):
-            continue
-        try:
-            toks = kept_tokens(src)
-        except BaseException:  # noqa: BLE001
-            continue
-        obs = impl_parse_observation(src, mode)
-        if obs["k"] in ("recursion", "tokerr"):
-            continue
-        req = parse_request(ir, toks, "file" if mode == "exec" else "eval")
-        out.append((req, obs, src))
-    return out
+    res = _pooled("_peg_case", [(s, mode) for s in srcs], timeout=30)
+    return [tuple(r) for r in res if isinstance(r, (tuple, list))]
 
 
 def run_peg_correspondence(rep, cases, name="recogniser-IR"):
@@ -287,8 +294,25 @@ def impl_tokens_encoded(src: str) -> str:
     return (f"ok {';'.join(out)}" if err is None else f"err {err} {';'.join(out)}").rstrip() if False else (f"ok {';'.join(out)}" if err is None else f"err {err} {';'.join(out)}")
 
 
+def _pooled(fn_name, args_list, timeout=20):
+    """Run harness.corr.<fn_name> on every argument tuple in worker processes (a hanging implementation is killed)."""
+    from harness.pool import Pool
+
+    pool = Pool()
+    try:
+        return pool.call(f"harness.corr:{fn_name}", args_list, timeout=timeout)
+    finally:
+        pool.close()
+
+
 def tok_cases(srcs):
-    return [(tok_request(s), impl_tokens_encoded(s), s) for s in srcs if "\n" not in tok_request(s)]
+    res = _pooled("impl_tokens_encoded", [(s,) for s in srcs])
+    out = []
+    for s, r in zip(srcs, res):
+        if isinstance(r, dict):  # hang / crash of the implementation: that is C03's verdict, not a correspondence datum
+            r = "impl-" + str(r.get("k"))
+        out.append((tok_request(s), r, s))
+    return out
 
 
 def run_tok_correspondence(rep, cases, name="tokenizer"):
